@@ -476,6 +476,7 @@ type WideParams struct {
 	EmptyTermPer int    // >0: docs with i%EmptyTermPer==1 also list the empty term (freq 2) in field "a"
 	DenseName    string // name of the dense term ("dense" or "dense2": merge inputs whose dense terms differ)
 	GapField     int    // >0: doc-value field "b" occurs only in document 3 and in documents >= GapField: whole 1024-document doc-value chunks without any value
+	SharedID     int    // >0: every SharedID-th document carries the _id term "shared" (identifiers need not be unique: one _id posting list with hundreds or thousands of hits), the others a unique one
 	CrossTerm    bool   // field "a" also lists term "zzlast" (its last term in byte order) in every second document, and the doc-value field "b" lists only that term: the first term of one field equals the last term of the field before it, with other cardinalities
 	ALo, AHi     int    // AHi>0: field "a" occurs only in documents ALo <= i < AHi: a doc-value field (the first in field order) that ends, or starts, in the middle of the segment while others go on
 	DenseExact   int    // >0: the dense term occurs in exactly the first DenseExact documents that have field "a" (an exact multiple of 1024: the boundary of the adaptive chunk-count formula)
@@ -504,6 +505,7 @@ func GenWide(t *rapid.T) WideParams {
 	if p.GapField > 0 {
 		p.CrossTerm = rapid.Bool().Draw(t, "crossTerm")
 	}
+	p.SharedID = rapid.SampledFrom([]int{0, 0, 0, 1, 2}).Draw(t, "sharedID")
 	if p.N > 1030 && rapid.IntRange(0, 2).Draw(t, "aWindow") == 0 {
 		p.ALo = rapid.SampledFrom([]int{0, 0, 200, 1024, 1030}).Draw(t, "aLo")
 		p.AHi = rapid.SampledFrom([]int{250, 1024, 1100, 2048, p.N - 3}).Draw(t, "aHi")
@@ -526,6 +528,13 @@ func (p WideParams) Batch(sc *Scenario) Batch {
 	dvA := sc.Schema["a"] != dvNever
 	denseSoFar := 0
 	for i := range b {
+		if p.SharedID > 0 {
+			id := "shared"
+			if i%p.SharedID != 0 {
+				id = fmt.Sprintf("id%06d", i)
+			}
+			b[i].Fields = append(b[i].Fields, Field{Name: "_id", Len: 1, Terms: []Term{{T: id, Freq: 1}}})
+		}
 		if p.GapField > 0 && (i == 3 || (i >= p.GapField && i%2 == 0)) {
 			bt := fmt.Sprintf("g%d", i%7)
 			if p.CrossTerm {
@@ -611,7 +620,7 @@ func GenCounts(t *rapid.T) CountsParams {
 	}
 	p.OtherField = rapid.Bool().Draw(t, "otherField")
 	if rapid.Bool().Draw(t, "longName") {
-		p.NameLen = rapid.SampledFrom([]int{100, 110, 113, 115, 118, 120, 121, 122, 123, 124, 125, 126, 127, 128, 129, 200, 255, 256, 257}).Draw(t, "nameLen")
+		p.NameLen = rapid.SampledFrom([]int{100, 110, 113, 115, 118, 120, 121, 122, 123, 124, 125, 126, 127, 128, 129, 200, 255, 256, 257, 16383, 16384, 65535, 65536, 70005}).Draw(t, "nameLen")
 	}
 	return p
 }
@@ -802,8 +811,14 @@ func (p SparseParams) Batch(sc *Scenario) Batch {
 // GenDrops draws a deletion bitmap for a segment of n documents from the four
 // classes nil / empty / partial / everything.
 func GenDrops(t *rapid.T, n int, label string) *roaring.Bitmap {
-	k := rapid.SampledFrom([]int{0, 1, 2, 2, 2, 3}).Draw(t, label+":dropKind")
+	k := rapid.SampledFrom([]int{0, 1, 2, 2, 2, 3, 4}).Draw(t, label+":dropKind")
 	switch k {
+	case 4: // a handful of single documents
+		bm := roaring.New()
+		for i := rapid.IntRange(1, 3).Draw(t, label+":dropFew"); i > 0 && n > 0; i-- {
+			bm.Add(uint32(rapid.IntRange(0, n-1).Draw(t, label+":dropOne")))
+		}
+		return bm
 	case 0:
 		return nil
 	case 1:
